@@ -9,7 +9,8 @@ fn leak(b: &[u8]) -> &'static [u8] {
 }
 
 pub fn check() -> Result<usize, String> {
-    let path = "/verif/fixtures/merlin_kat.txt";
+    let path = format!("{}/fixtures/merlin_kat.txt", crate::paths::verif_root());
+    let path = path.as_str();
     let text = std::fs::read_to_string(path).map_err(|e| format!("{}: {}", path, e))?;
     let mut t: Option<Transcript> = None;
     let mut stack: Vec<Transcript> = vec![];
